@@ -218,6 +218,10 @@ def handle (st : Variant × Reg) (line : String) : (Variant × Reg) × String :=
     match parseSnap ((line.drop 6).toString) with
     | none => (st, "bad-snapshot")
     | some (s, w) => (st, invS s ++ (if viewsOk s w then " views:ok" else " views:bad"))
+  | ["rens", n, _] =>   -- source.name = ...: nothing the model tracks moves (the harness judges it directly)
+    match n.toNat? with
+    | some n => (st, if AL.has st.2.sources n then "ok" else "error")
+    | none => (st, "bad-op")
   | ["sdp", n, i, p] =>   -- raw: demand_timeseries_list[i].pattern_name = p (outside `Op`)
     match n.toNat?, i.toNat?, optP p with
     | some n, some i, some p => let (s', o) := setDemandPatternRaw st.2 n i p; ((st.1, s'), outS o)
